@@ -5,3 +5,29 @@ Each classifier is a predicate over a violation record (monitor, mechanism,
 configuration features, failure detail) - never over case numbers, hashes or
 random values.  A record that does not match is reported as a new VIOLATION.
 """
+
+
+def _has_cov_special_leaf(v):
+    leaves = v.get('features', {}).get('leaves', []) or []
+    return any(str(l).startswith('Cov') and ('(P' in l or '(H' in l)
+               for l in leaves)
+
+
+def c13_cov_special(v):
+    """
+    PopulationFilterLogPosterior + CovariatePopulationModel around a pooled /
+    heterogeneous model: the posterior identifies special dimensions by
+    isinstance checks on the sub-models, so the covariate-wrapped ones are
+    treated as regular dimensions: evaluation raises in
+    _reshape_bottom_parameters, or the population density is -inf at every
+    point.  Only those two signatures are attributed.
+    """
+    if not _has_cov_special_leaf(v):
+        return False
+    m = v['mechanism']
+    if m.startswith('ValueError@chi/_log_pdfs.py:_reshape_bottom_parameters'):
+        return True
+    if m == 'nonfinite_offset':
+        vals = v.get('detail', {}).get('values', [])
+        return bool(vals) and all(str(x) == '-inf' for x in vals)
+    return False
